@@ -101,17 +101,20 @@ def run(ctx, prog, crate):
         # (directly, or through a temporary that is only copied: `let ptr = inner.alloc(..); ...; ptr`)
         og = origins(b, {"k": "move", "p": {"l": 0, "proj": [], "ty": ""}})
         unit = b.local_ty(0) == "()"
-        ctx.check(unit or (len(og) == 1 and og[0][0] == "call" and og[0][1].bb == c.bb), "R09.1", [m, "result-verbatim"],
+        ctx.check(unit or (len(og) >= 1 and all(o[0] == "call" and o[1].bb == c.bb for o in og)), "R09.1", [m, "result-verbatim"],
                   "the value returned is not (only) the wrapped allocator's result: %s" % [o[1].callee if o[0] == "call" else o[0] for o in og], c.line())
         srcs0 = b.prov.local_src(0)
-        ctx.check(unit or (not any(s.kind in ("binop", "unop", "const", "phi") for s in srcs0)), "R09.1", [m, "result-not-overwritten"],
-                  "the returned pointer is computed/merged from %s" % sorted(s.label() for s in srcs0 if s.kind in ("binop", "unop", "const", "phi")), b.where(0))
+        same_result = len(og) >= 1 and all(o[0] == "call" and o[1].bb == c.bb for o in og)     # several returns of the one result are not a merge
+        bad0 = [s for s in srcs0 if s.kind in ("binop", "unop", "const") or (s.kind == "phi" and not same_result)]
+        ctx.check(unit or not bad0, "R09.1", [m, "result-not-overwritten"],
+                  "the returned pointer is computed/merged from %s" % sorted(s.label() for s in bad0), b.where(0))
         # nothing else touches self.alloc
         for o in b.live_calls():
             if o.bb == c.bb:
                 continue
             for a in o.args:
-                if any(s.kind == "param" and s.a == b.param_name(1) and s.b[:1] == ("alloc",) for s in b.prov.op_src(a)):
+                # the allocator itself handed to something else (not: a value the forwarded call returned)
+                if any(og_[0] == "place" and og_[1] == 1 and tuple(og_[2])[:1] == ("alloc",) for og_ in origins(b, a)):
                     ctx.fail("R09.1", [m, "second-use-of-wrapped-allocator", o.callee],
                              "`%s` also receives self.alloc" % o.callee, o.line())
 
